@@ -42,6 +42,27 @@ class PolarizedRays(RealRays):
         self._M0 = M.copy()
         self._N0 = N.copy()
 
+    def rotate_x(self, rx: float):
+        """Rotate the rays and their polarization matrices about the x-axis."""
+        super().rotate_x(rx)
+        c, s = np.cos(rx), np.sin(rx)
+        self.p = np.matmul(np.array([[1, 0, 0], [0, c, -s], [0, s, c]]),
+                           self.p)
+
+    def rotate_y(self, ry: float):
+        """Rotate the rays and their polarization matrices about the y-axis."""
+        super().rotate_y(ry)
+        c, s = np.cos(ry), np.sin(ry)
+        self.p = np.matmul(np.array([[c, 0, s], [0, 1, 0], [-s, 0, c]]),
+                           self.p)
+
+    def rotate_z(self, rz: float):
+        """Rotate the rays and their polarization matrices about the z-axis."""
+        super().rotate_z(rz)
+        c, s = np.cos(rz), np.sin(rz)
+        self.p = np.matmul(np.array([[c, -s, 0], [s, c, 0], [0, 0, 1]]),
+                           self.p)
+
     def get_output_field(self, E: np.ndarray) -> np.ndarray:
         """
         Compute the output electric field given the input electric field.
@@ -99,9 +120,11 @@ class PolarizedRays(RealRays):
         s = np.cross(k0, k1)
         mag = np.linalg.norm(s, axis=1)
 
-        # handle case when mag = 0 (i.e., k0 parallel to k1)
-        if np.any(mag == 0):
-            s[mag == 0] = np.cross(k0[mag == 0], np.array([1.0, 0.0, 0.0]))
+        # handle case when k0 is (numerically) parallel to k1: the cross
+        # product is then zero or pure rounding noise
+        parallel = mag < 1e-8
+        if np.any(parallel):
+            s[parallel] = np.cross(k0[parallel], np.array([1.0, 0.0, 0.0]))
             mag = np.linalg.norm(s, axis=1)
 
         s /= mag[:, np.newaxis]
